@@ -67,6 +67,12 @@ func (e *Exec) execInstr(ins ssa.Instruction, st *State) {
 		}
 		id := App("closure:"+funcKey(fn), Ref, ids...)
 		e.ctx.assume(Lt(ConstI(0, Ref), id))
+		// a closure created now is not any function value that existed at entry
+		for _, p := range e.fn.Params {
+			if pv, ok := e.vals[p].(FuncV); ok {
+				e.ctx.assume(Ne(id, pv.ID))
+			}
+		}
 		e.vals[x] = FuncV{ID: id, Static: fn, Bindings: binds}
 	case *ssa.MakeInterface:
 		v := e.val(x.X)
@@ -149,6 +155,9 @@ func (e *Exec) ifaceID(v Value, t types.Type) *Term {
 	}
 	id := App("iface:"+typeName(t), Ref, inner)
 	e.ctx.assume(Lt(ConstI(0, Ref), id)) // an interface holding a value is not nil
+	if _, isPtr := v.(PtrV); isPtr {
+		e.ctx.assume(Eq(App("ifaceptr", Ref, id), inner))
+	}
 	return id
 }
 
@@ -370,9 +379,22 @@ func (e *Exec) unop(x *ssa.UnOp, st *State) Value {
 	v := e.val(x.X)
 	switch x.Op {
 	case token.MUL:
+		// captured variables that are never reassigned: their cell cannot change, whatever
+		// code runs in between (only the capturing closures can reach it)
+		if e.cellIsFinal(x.X) {
+			if cv, ok := e.finalCells[x.X]; ok {
+				return cv
+			}
+		}
 		p, ok := v.(PtrV)
 		if !ok {
 			e.errorf("load through %T", v)
+		}
+		if e.cellIsFinal(x.X) {
+			e.safe("nil", st, Ne(p.Addr, ConstI(0, Ref)), x.Pos())
+			cv := e.loadAt(st, p)
+			e.finalCells[x.X] = cv
+			return cv
 		}
 		e.safe("nil", st, Ne(p.Addr, ConstI(0, Ref)), x.Pos())
 		e.guardedAccess(p, st, x.Pos(), "read")
@@ -563,3 +585,83 @@ func (e *Exec) typeAssert(x *ssa.TypeAssert, st *State) Value {
 }
 
 var _ = fmt.Sprintf
+
+var finalMemo = map[ssa.Value]bool{}
+
+// cellIsFinal: v is the cell of a local variable (an Alloc, or a closure's free variable bound
+// to one) that is stored to exactly once (its initialisation).
+func (e *Exec) cellIsFinal(v ssa.Value) bool {
+	if r, ok := finalMemo[v]; ok {
+		return r
+	}
+	root := v
+	for depth := 0; depth < 8; depth++ {
+		fv, ok := root.(*ssa.FreeVar)
+		if !ok {
+			break
+		}
+		fn := fv.Parent()
+		parent := fn.Parent()
+		if parent == nil {
+			finalMemo[v] = false
+			return false
+		}
+		idx := -1
+		for i, f := range fn.FreeVars {
+			if f == fv {
+				idx = i
+			}
+		}
+		var bound ssa.Value
+		for _, b := range parent.Blocks {
+			for _, ins := range b.Instrs {
+				if mc, ok := ins.(*ssa.MakeClosure); ok && mc.Fn == fn && idx < len(mc.Bindings) {
+					bound = mc.Bindings[idx]
+				}
+			}
+		}
+		if bound == nil {
+			finalMemo[v] = false
+			return false
+		}
+		root = bound
+	}
+	al, ok := root.(*ssa.Alloc)
+	if !ok {
+		finalMemo[v] = false
+		return false
+	}
+	stores := countStores(al, 0)
+	res := stores <= 1
+	finalMemo[v] = res
+	return res
+}
+
+// countStores counts stores to the cell through the value and through closures capturing it.
+func countStores(v ssa.Value, depth int) int {
+	if depth > 8 || v.Referrers() == nil {
+		return 99
+	}
+	n := 0
+	for _, ref := range *v.Referrers() {
+		switch x := ref.(type) {
+		case *ssa.Store:
+			if x.Addr == v {
+				n++
+			} else {
+				return 99 // the cell's address itself escapes into memory
+			}
+		case *ssa.MakeClosure:
+			fn := x.Fn.(*ssa.Function)
+			for i, b := range x.Bindings {
+				if b == v && i < len(fn.FreeVars) {
+					n += countStores(fn.FreeVars[i], depth+1)
+				}
+			}
+		case *ssa.UnOp, *ssa.DebugRef:
+		default:
+			return 99 // passed somewhere else: be conservative
+		}
+	}
+	return n
+}
